@@ -97,6 +97,7 @@ def treeRes (t : Option BinOpParser.Tree) : Sexp :=
 
 def handle (req : Sexp) : Sexp :=
   match req.head?, req.args with
+  | some "noop", _ => sym "ok"
   | some "keytolabel", [k] => ofBytes (KeyToLabel.run k.toBytes)
   | some "validlabel", [d, k] => ofNat (if KeyToLabel.isValidLabel (d.toNat == 1) k.toBytes then 1 else 0)
   | some "rfc3339", [t] => match Rfc3339.parse t.toBytes with
